@@ -210,8 +210,77 @@ F6 ==
              ELSE <<Rel(EndOf(1, Long("f", m, "a"), "Set"), EndOf(1, Long("f", m, "b"), "Set"))>>) :
         n \in Lens, m \in Lens, s \in BOOLEAN}
 
+(* F7: the primary key is, or contains, a reference.  B.x = PrimaryKey(A) (the passport of a person: one column
+   - or one column group when A's key is composite - that is primary key and foreign key at once; A.y is the
+   reverse side, Optional with or without cascade_delete, or a collection), PrimaryKey(x, n) / PrimaryKey(n, x)
+   with x = Required(A), and entities that refer to such an entity in turn (their foreign key columns are
+   named after, and point to, key columns that are themselves foreign keys). *)
+RevKinds == {"Optional", "Set", "Required", "PrimaryKey"}
+Cascades == {"none", "true", "false"}
+IdxTrue == [k |-> "true", n |-> <<>>]
+IdxFalse == [k |-> "false", n |-> <<>>]
+F7 ==
+    \* x = PrimaryKey(A): every option of the attribute and of the reverse side
+    {Diagram("pk-reference",
+             <<WithPk(Ent(nA, <<>>), pm), Ent(nB, <<Attr(nn, "Required", "int")>>)>>,
+             <<Rel([EndOf(2, nx, "PrimaryKey") EXCEPT !.columns = cols, !.index = ix, !.nullable = nl, !.cascade = cd1],
+                   [EndOf(1, ny, k2) EXCEPT !.cascade = cd2])>>) :
+        pm \in (IF Thorough THEN {"implicit", "composite", "column", "str"} ELSE {"implicit", "composite"}),
+        k2 \in (IF Thorough THEN RevKinds ELSE {"Optional", "Set"}), cols \in ColChoices,
+        ix \in (IF Thorough THEN IdxOpts ELSE {NoIdx, IdxTrue, [k |-> "name", n |-> nix]}),
+        nl \in (IF Thorough THEN {"none", "true"} ELSE {"none"}), cd1 \in (IF Thorough THEN {"none", "true"} ELSE {"none"}),
+        cd2 \in Cascades}
+    \cup
+    \* declarations Pony must refuse (a second primary key, both sides required), options without effect on a
+    \* key (nullable=True), cascade_delete on the key's side, columns named on the reverse side
+    {Diagram("pk-reference",
+             <<Ent(nA, <<>>), WithPk(Ent(nB, <<>>), pmb)>>,
+             <<Rel([EndOf(2, nx, "PrimaryKey") EXCEPT !.nullable = nl, !.cascade = cd1, !.index = ix],
+                   [EndOf(1, ny, k2) EXCEPT !.columns = cols2])>>) :
+        pmb \in {"implicit", "auto", "composite"}, k2 \in RevKinds, nl \in {"none", "true"}, cd1 \in {"none", "true"},
+        ix \in (IF Thorough THEN {NoIdx, IdxFalse} ELSE {IdxFalse}), cols2 \in {<<>>, <<ncz>>}}
+    \cup
+    \* PrimaryKey(x, n) / PrimaryKey(n, x) with x = Required(A): the reverse side a one-to-one Optional
+    \* (cascading or not) or a collection; the columns of x are, or are not, a prefix of the key
+    {Diagram("pk-reference-composite",
+             <<WithPk(Ent(nA, <<>>), pm), [Ent(nC, <<Attr(nn, "Required", "int")>>) EXCEPT !.pk = pkc]>>,
+             <<Rel([EndOf(2, nx, "Required") EXCEPT !.columns = cols, !.index = ix, !.nullable = nl], [EndOf(1, ny, k2) EXCEPT !.cascade = cd2])>>) :
+        pm \in {"implicit", "composite"}, pkc \in {<<nx, nn>>, <<nn, nx>>},
+        cols \in (IF Thorough THEN ColChoices ELSE {<<>>}), ix \in (IF Thorough THEN IdxOpts ELSE {NoIdx, IdxFalse}),
+        nl \in (IF Thorough THEN Nullables ELSE {"none"}), k2 \in {"Optional", "Set"}, cd2 \in Cascades}
+    \cup
+    \* PrimaryKey(x, w): two references make up the key
+    {Diagram("pk-reference-composite",
+             <<WithPk(Ent(nA, <<>>), pm), [Ent(nC, <<>>) EXCEPT !.pk = <<nx, nw>>], Ent(nT, <<>>)>>,
+             <<Rel([EndOf(2, nx, "Required") EXCEPT !.index = ix], [EndOf(1, ny, k2) EXCEPT !.cascade = cd2]),
+               Rel(EndOf(2, nw, "Required"), [EndOf(3, nz, k3) EXCEPT !.cascade = cd3])>>) :
+        pm \in {"implicit", "composite"}, ix \in (IF Thorough THEN IdxOpts ELSE {NoIdx}), k2 \in {"Optional", "Set"},
+        cd2 \in (IF Thorough THEN Cascades ELSE {"none", "true"}), k3 \in {"Optional", "Set"}, cd3 \in {"none", "true"}}
+    \cup
+    \* references to an entity whose key is a reference: C.z -> B.x -> A (C.z Required, Optional or C's own key);
+    \* C a subclass of B
+    {Diagram("pk-reference-chain",
+             <<WithPk(Ent(nA, <<>>), pm), Ent(nB, <<>>), [Ent(nC, <<>>) EXCEPT !.base = bc]>>,
+             <<Rel([EndOf(2, nx, "PrimaryKey") EXCEPT !.columns = cols], [EndOf(1, ny, "Optional") EXCEPT !.cascade = cd2]),
+               Rel([EndOf(3, nz, k3) EXCEPT !.columns = cols3, !.index = ix], [EndOf(2, nw, k4) EXCEPT !.cascade = cd4])>>) :
+        pm \in {"implicit", "composite"}, bc \in {0, 2}, cols \in (IF Thorough THEN {<<>>, <<ncx, ncy>>} ELSE {<<>>}),
+        cd2 \in (IF Thorough THEN {"none", "true"} ELSE {"none"}),
+        k3 \in {"Required", "Optional", "PrimaryKey"}, cols3 \in {<<>>, <<ncz>>},
+        ix \in (IF Thorough THEN {NoIdx, IdxFalse} ELSE {NoIdx}), k4 \in {"Optional", "Set"},
+        cd4 \in (IF Thorough THEN Cascades ELSE {"none", "true"})}
+    \cup
+    \* a key made from itself: no schema
+    {Diagram("pk-reference-cycle", <<Ent(nT, <<>>)>>,
+             <<Rel([EndOf(1, nx, "PrimaryKey") EXCEPT !.columns = cols], EndOf(1, ny, "Optional"))>>) : cols \in {<<>>, <<ncx>>}}
+    \cup
+    {Diagram("pk-reference-cycle", <<[Ent(nT, <<Attr(nn, "Required", "int")>>) EXCEPT !.pk = <<nx, nn>>]>>,
+             <<Rel(EndOf(1, nx, "Required"), EndOf(1, ny, k2))>>) : k2 \in {"Set", "Optional"}}
+    \cup
+    {Diagram("pk-reference-cycle", <<Ent(nA, <<>>), Ent(nB, <<>>)>>,
+             <<Rel(EndOf(1, nx, "PrimaryKey"), EndOf(2, ny, "Optional")), Rel(EndOf(2, nz, "PrimaryKey"), EndOf(1, nw, "Optional"))>>)}
+
 (* the harness evaluates the families in a few parallel TLC runs: In.fams selects the families of this run *)
-Diagrams == {d \in F1 \cup F2 \cup F3 \cup F4 \cup F5 \cup F6 : \E j \in DOMAIN In.fams : In.fams[j] = d.fam}
+Diagrams == {d \in F1 \cup F2 \cup F3 \cup F4 \cup F5 \cup F6 \cup F7 : \E j \in DOMAIN In.fams : In.fams[j] = d.fam}
 
 Cfgs == In.cfgs        \* sequence of [dialect, maxlen, full]
 
